@@ -6,7 +6,8 @@ class C38(Spec):
     drv = "drv_c38"
     harness = "h_c38"
     required_theorems = ("C38.full_statement", "C38.guarded_secret_needs_unlock", "C38.sign_with_stored_key_needs_unlock",
-                         "C38.sign_locked_never_uses_stored_key", "C38.password_change_never_touches_flag",
+                         "C38.sign_locked_never_uses_stored_key", "C38.ticket_path_needs_unlock_or_ticket_mode",
+                         "C38.ticket_mode_does_not_open_requests", "C38.password_change_never_touches_flag",
                          "C38.unlocked_needs_unlock_without_password_change", "C38.window_excludes_guarded", "C38.lock_locks",
                          "C38.unlock_wrong_password_no_change", "C38.guarded_locked",
                          "C38.regression_old_transient_unlock", "C38.regression_old_lost_lock",
@@ -38,7 +39,8 @@ class C38(Spec):
                   "design and is outside the property.")
     assumptions = ("the wallet has a saved seed (otherwise Lock/Unlock never touch the flag)",
                    "Go's sync.Mutex / sync/atomic / time.AfterFunc behave as specified",
-                   "wallet plugins (policies) do not write the flag themselves")
+                   "wallet plugins (policies) do not write the flag themselves",
+                   "a mining plugin's mineStatusReporter reports 'ticket unlocked' only after a ticket unlock with the correct password (ticket mode is a declared exception of the locked-wallet clause)")
     quick_timeout = 900
 
 
